@@ -13,6 +13,9 @@ def plan(ctx):
 
 # directed scenarios (in addition to the TLC-simulated ones): combinations a random sample rarely hits
 DIRECTED = [
+    # a suspicion (positive, severity UNKNOWN) must not colour the entries written after it, in the batch or in later calls
+    ('rsa', 'lhw-suspicion-first', {'s1': 'lhwA', 's2': 'healthy', 's3': 'small', 's4': 'healthy3072'},
+     [{'all': False, 'check': 'CheckLowHammingWeight', 'batch': ['s1', 's2', 's3']}, {'all': True, 'check': 'ALL', 'batch': ['s4']}]),
     ('ecdsa', 'xy-r1-k1', {'s1': 'healthyA', 's2': 'samexy'}, [{'all': False, 'check': 'CheckIssuerKey', 'batch': ['s1', 's2']}]),
     ('ecdsa', 'xy-k1-r1', {'s1': 'healthyA', 's2': 'samexy'}, [{'all': False, 'check': 'CheckIssuerKey', 'batch': ['s2', 's1']}]),
     ('ecdsa', 'issuer-severity-history', {'s1': 'close192A', 's2': 'close192B', 's3': 'healthyA'},
